@@ -375,6 +375,10 @@ def gen_cases(seed, chunk, n, tier):
 
 
 def run(ctx):
+    from .. import tie
+
+    # translation tie: Lean definitions regenerated from /repo's source + equality theorems with the model
+    ctx.tie = tie.run_tie(ctx, tie.FUNCTIONS["C16"])
     n = 6000 if ctx.tier == "quick" else 40000
     stream.run_stream(ctx, "build", "harness.props.c16", "gen_cases", n, per_chunk=80,
                       canon_kw=dict(drop_zero=False))
